@@ -110,8 +110,43 @@ def run_history(hist, adds, vocab, base):
     return steps
 
 
+def observe_split(s):
+    """which (module, name) pairs does the ONE addition string s permit?  Behavioural: every cut of s at a
+    dot (and the same name in the parent module) is offered to find_class of an unpickler constructed with
+    also_allow=[s]; UnsafeFileError = refused, anything else (the import of a made-up module failing) = permitted.
+    Returns the sorted list of permitted cut positions (-1 = the parent-module candidate), or ERR:<type> if
+    the constructor raises."""
+    import io
+    import fickling.ml as fml
+    from fickling.exception import UnsafeFileError
+    try:
+        u = fml.FicklingMLUnpickler(io.BytesIO(b"N."), also_allow=[s])
+    except BaseException as e:  # noqa: BLE001
+        return "ERR:" + type(e).__name__
+    cands = [(i, s[:i], s[i + 1:]) for i, c in enumerate(s) if c == "."]
+    if cands:
+        i, m, n = cands[-1]
+        if "." in m:
+            cands.append((-1, m.rsplit(".", 1)[0], n))
+    out = []
+    for i, m, n in cands:
+        if n in fml.ML_ALLOWLIST.get(m, ()):
+            continue                       # permitted by the built-in table, whatever the addition
+        try:
+            u.find_class(m, n)
+            out.append(i)
+        except UnsafeFileError:
+            pass
+        except BaseException:  # noqa: BLE001
+            out.append(i)
+    return sorted(out)
+
+
 def main():
     job = json.loads(sys.stdin.read())
+    if "splits" in job:
+        sys.stdout.write(json.dumps({"splits": [observe_split(s) for s in job["splits"]]}) + "\n")
+        return
     adds, vocab = job["adds"], [tuple(v) for v in job["vocab"]]
     for m in sorted({v[0] for v in vocab}):          # pre-import so that forks are cheap
         try:
